@@ -54,6 +54,14 @@ Theorem set_length_one_line : forall t e r len, has_nl e = false -> set_length t
 Proof. exact set_length_one_line_fact. Qed.
 Print Assumptions set_length_one_line.
 
+From Servitor Require Import Oracles.
+From Servitor.Facts Require Import OracleFacts.
+(* the oracle applied to the implementation's frames *)
+Theorem center_height_ok :
+  forall (p c s : text) (h : Z), 1 <= h -> height_ok h (center_vertically p c s h) = true.
+Proof. exact center_height_ok_fact. Qed.
+Print Assumptions center_height_ok.
+
 (* Non-vacuity, and the geometry the pinned tree got wrong: exactly one spare row *)
 Example c16_example : height (center_vertically [97;10;98] [99] [100] 2)%N = 2.
 Proof. vm_compute. reflexivity. Qed.
